@@ -271,7 +271,7 @@ impl<'src> Justfile<'src> {
     } else {
       let module = self.modules.get(&path[position]).unwrap();
 
-      let scope = if let Some(scope) = scopes.get(&path[..position]) {
+      let scope = if let Some(scope) = scopes.get(&path[..=position]) {
         scope
       } else {
         let scope = Evaluator::evaluate_assignments(
@@ -283,8 +283,8 @@ impl<'src> Justfile<'src> {
           search,
         )?;
         let scope = arena.alloc(scope);
-        scopes.insert(path, scope);
-        scopes.get(path).unwrap()
+        scopes.insert(&path[..=position], scope);
+        scopes.get(&path[..=position]).unwrap()
       };
 
       module.invocation(
